@@ -118,7 +118,8 @@ def m_table(ctx, case):
         tc_ = rng.choice((0, 0, rng.randrange(32)))
         me = (tc_ << 51) | rng.fill(51)
         ctx.hit("table_first_heard_by_tc%d" % tc_)
-    a = bits.tohex(bits.es_frame(17, 5, addr, me), 112, case["hexcase"], rng)
+    # (DF17 with any capability value, DF18 with any control field - anonymous / TIS-B / ADS-R addresses are addresses too)
+    a = bits.tohex(bits.es_frame(rng.choice((17, 17, 18, 18)), rng.choice((5, rng.randrange(8))), addr, me), 112, case["hexcase"], rng)
     b = bits.tohex(bits.commb_frame(case["df"], rng.fill(27), rng.fill(56), addr), 112, case["hexcase2"], rng)
     d = Decode()
     r = call(d.process_raw, [100.0], [a], [101.0], [b], 102.0)
